@@ -522,6 +522,9 @@ func newDirectedLocalMover(g *ReducedDirected, communities [][]graph.Node, resol
 		l.edgeWeightsOf[id] = directedWeights{out: w + wOut, in: w + wIn}
 		l.m += w + wOut
 	}
+	if l.m == 0 {
+		return nil
+	}
 
 	// Assign membership mappings.
 	for i, c := range communities {
